@@ -5,7 +5,7 @@
 //
 // Code that is not run under a scheduler (Cur() == nil, e.g. the pool's own ticker goroutine or the
 // pool used by other tests) passes through every call unchanged: Point is a no-op, Lock locks, Now is
-// the wall clock, Go is a plain go statement.
+// the wall clock (or the manual clock, see SetManual), Go is a plain go statement.
 package vcoop
 
 import (
@@ -155,11 +155,49 @@ func Go(first string, f func()) {
 	nt.SkipOne = first
 }
 
-// Now replaces time.Now in instrumented code.
+// Now replaces time.Now in instrumented code.  Under a scheduler it is the scheduler's clock; otherwise the
+// manual clock when one is set (SetManual), otherwise the wall clock.
 func Now() time.Time {
 	s, t := current()
 	if t == nil {
+		mu.Lock()
+		defer mu.Unlock()
+		if manualOn {
+			return manualBase.Add(time.Duration(manualSecs) * time.Second)
+		}
 		return time.Now()
 	}
 	return time.Unix(s.Clock, 0)
+}
+
+// Since replaces time.Since in instrumented code.
+func Since(t time.Time) time.Duration { return Now().Sub(t) }
+
+// Manual clock for instrumented code that runs without a scheduler (C19: the real remote target with
+// its real connections): frozen at base + the seconds added by Advance; it never moves by itself.
+var (
+	manualOn   bool
+	manualBase time.Time
+	manualSecs int64
+)
+
+// SetManual switches the manual clock on (at base) or off.
+func SetManual(on bool, base time.Time) {
+	mu.Lock()
+	manualOn, manualBase, manualSecs = on, base, 0
+	mu.Unlock()
+}
+
+// Advance moves the manual clock forward by d seconds.
+func Advance(d int64) {
+	mu.Lock()
+	manualSecs += d
+	mu.Unlock()
+}
+
+// ManualSecs is the number of seconds the manual clock was advanced since SetManual.
+func ManualSecs() int64 {
+	mu.Lock()
+	defer mu.Unlock()
+	return manualSecs
 }
